@@ -29,7 +29,8 @@ PROPS["C16"] = {
                   " Later widening: tab, line end and the byte 0xff are in the exhaustive alphabet; the reference tokeniser treats space, tab and line end as blanks, folds case without touching bytes that are not UTF-8, and abstains on other Unicode blanks."
                   " Round 5: form feed joins the exhaustive alphabet (a blank the documentation does not mention: the reference abstains, the token-truth invariants still apply); the source span of a word is computed letter by letter (case folding may change the byte length of a letter); the native fuzz leg no longer filters its inputs."
                   " Round 6: the bytes 0xC3 and 0xA0 join the exhaustive alphabet (together the letter a-grave, whose last byte read alone is the Latin-1 no-break space); words ending in such letters in the spacing leg."
-                  " Round 7: letters whose lower-case form has another byte length (U+023A, U+212A, U+0130, U+2126) in the words and literal contents of the spacing leg.",
+                  " Round 7: letters whose lower-case form has another byte length (U+023A, U+212A, U+0130, U+2126) in the words and literal contents of the spacing leg."
+                  " Round 10: the carriage return joins the exhaustive alphabet (32 symbols), and the spacing leg draws what a gap is made of: space, tab, line end, CR LF, CR, space + CR LF.",
     "rule": "leg Exhaustive: every string of length 1..L over the 25-symbol token alphabet "
             "{a 1 . space ' \" ` = ! < > ^ ~ & | ( ) [ ] , ; + - * /} (L=4 quick, L=5 thorough), each emitted exactly once; "
             "leg Spacing: rapid-generated token sequences (<=8 tokens: keywords in mixed case, names, numbers, floats, "
